@@ -188,6 +188,32 @@ def _box(name, x, lo, hi, eps=1e-6):
     return []
 
 
+def _box_upto_scale(name, x, lo, hi, eps=1e-6):
+    """Free-joint quaternion: MJX kinematics stores the unit quaternion, so the drawn value raw = lam * x for
+    some lam > 0. Accept iff one lam puts every component inside [lo, hi] (and x has unit length)."""
+    x, lo, hi = np.asarray(x, np.float64), np.asarray(lo, np.float64), np.asarray(hi, np.float64)
+    if not np.all(np.isfinite(x)):
+        return [f"{name}={x!r} not finite"]
+    if not _box(name, x, lo, hi, eps):
+        return []  # un-normalised value inside the box as it stands
+    if abs(np.linalg.norm(x) - 1.0) > 1e-4:
+        return _box(name, x, lo, hi, eps)
+    lam_lo, lam_hi = 0.0, np.inf
+    for xi, a, b in zip(x, lo - eps, hi + eps):
+        if abs(xi) < 1e-12:
+            if not (a <= 0.0 <= b):
+                return [f"{name}={x!r}: no positive multiple lies in [{lo}, {hi}]"]
+            continue
+        l1, l2 = sorted((a / xi, b / xi))
+        lam_lo, lam_hi = max(lam_lo, l1), min(lam_hi, l2)
+    if lam_lo > lam_hi or lam_hi <= 0.0:
+        return [f"{name}={x!r}: no positive multiple lies in [{lo}, {hi}]"]
+    return []
+
+
+FREE_JOINT = {"Ant", "Humanoid", "HumanoidStandup"}
+
+
 def _support(base):
     """(predicate, fingerprint, continuous) for the base env. predicate(base_state) ->
     (state_problems, clock_problems)."""
@@ -278,7 +304,12 @@ def _support(base):
                 sp += _box("qvel[:-4]", v[:-4], v0[:-4] - 0.005, v0[:-4] + 0.005)
                 sp += _box("qvel[-4:]", v[-4:], 0.0, 0.0, eps=0.0)
             else:
-                sp += _box("qpos", q, q0 - sc, q0 + sc)
+                if name in FREE_JOINT:
+                    sp += _box("qpos[:3]", q[:3], q0[:3] - sc, q0[:3] + sc)
+                    sp += _box_upto_scale("qpos[3:7]", q[3:7], q0[3:7] - sc, q0[3:7] + sc)
+                    sp += _box("qpos[7:]", q[7:], q0[7:] - sc, q0[7:] + sc)
+                else:
+                    sp += _box("qpos", q, q0 - sc, q0 + sc)
                 w = 6.0 * sc if name in NORMAL_QVEL else sc  # Gaussian reset noise: generous 6 sigma bound
                 sp += _box("qvel", v, v0 - w, v0 + w)
             cp = []
